@@ -186,9 +186,12 @@ Example C08_archive_happens :
   let '(_, evs, _) := dep_pass wit_hash None wit_slices false false false wit_sliced_world in
   existsb (fun e => match e with DUpdate 300 LArchived _ WOk => true | _ => false end) evs = true.
 Proof. vm_compute. reflexivity. Qed.
+Print Assumptions C08_archive_happens.
 Example C08_repaired_getter_refuses :
   let '(_, evs, _) := dep_pass wit_hash None wit_slices true false false wit_sliced_world in
   existsb (fun e => match e with DUpdate _ LArchived _ _ => true | _ => false end) evs = false.
 Proof. exact wit_sliced_archive_repaired. Qed.
+Print Assumptions C08_repaired_getter_refuses.
 Example C08_names_unique : NoDup (map sname (dw_sets wit_gc_world)).
 Proof. vm_compute. repeat constructor; cbn; intuition discriminate. Qed.
+Print Assumptions C08_names_unique.
